@@ -36,47 +36,63 @@ RULE = (
     "by digest of the bytes; all have at least one sample."
 )
 TRUSTED = [
-    "translator harness/translate/shorten.py (module constants, tables, type limit, initial-mean chain, block-command "
+    "translator harness/translate/shorten.py (ast: module constants incl. every FN_*/TYPE_*/*SIZE, NWRAP, LPCQUANT, "
+    "V2LPCQOFFSET, BUFSIZ, tables ULAW2PCM / ULAW_OUTWARD, type limit `ftype >= 9`, initial-mean chain, block-command "
     "set, convert set, first read size) -> Generated/ShortenConsts.lean",
-    "Python semantics given to the primitives the model names: struct.unpack('>l'/'b'), file_.read(n) returning the next "
-    "min(n, rest) bytes, memoryview slicing, `x & (2**n - 1)` = x mod 2**n and `x >> n` = floor division on negative "
-    "Python ints, NumPy basic slicing / overlapping slice assignment / fancy indexing / .T.flat / sum, "
-    "c99_div = int(float(a)/b) = truncation (exact below 2**53)",
-    "NumPy int32 cells and scalars are modelled by unbounded Int together with a monitor (Prog.chk / runM) that is true "
-    "exactly when no stored value, LPC sum, shifted mean or Python-int operand leaves int32; the driver reports the "
-    "monitor per stream and streams where it is false are hypothesis-gap cases (not compared)",
-    "the loop `for i in range(nwrap, blocksize+nwrap): cbuffer[i] = ...` is modelled as a fold over a reversed prefix "
-    "(cbuffer[:i] reversed), written back with one slice assignment",
-    "SPHERE header parsing (read_header) and the final cast into the result dtype are outside the model (the harness "
-    "writes the header; values are compared after the same cast)",
+    "the decoder is written once as a program (Prog) over the single primitive uvar_get - every other read in the "
+    "Python code goes through it - and run with two readers: the bit list (L0) and the word buffer (L1, what the "
+    "driver runs)",
+    "Python semantics given to the primitives the model names: struct.unpack('>l'/'b'), file_.read(n) returning the "
+    "next min(n, rest) bytes, memoryview slicing, `x & (2**n - 1)` = x mod 2**n and `x >> n` = floor division on "
+    "negative Python ints, `~x = -x-1`, NumPy basic slicing / overlapping slice assignment / fancy indexing / .T.flat "
+    "/ sum, c99_div = int(float(a)/b) = truncation toward zero (exact below 2**53)",
+    "NumPy int32 cells and scalars are modelled by unbounded Int together with a monitor (Prog.chk / runM) that is "
+    "true when no stored value, LPC sum, shifted mean, Python-int operand or table index leaves the range in which "
+    "NumPy and Int agree; the driver reports the monitor per stream, streams where it is false are hypothesis-gap "
+    "cases (not compared); monitor_irrelevant proves it never changes a result",
+    "the loops `for i in range(nwrap, blocksize+nwrap): cbuffer[i] = ...` are modelled as folds over the reversed "
+    "prefix cbuffer[:i], written back with one slice assignment; buffer[chan] and offset[chan] are kept per channel",
+    "outside the model: SPHERE header parsing (read_header; the harness writes consistent sample_count / "
+    "channel_count), the capacity of `data`, the final cast into the result dtype (values are compared after the same "
+    "cast), failures other than IOError (block size 0 or above the allocated size, no channels, nlpc > maxnlpc: the "
+    "model answers `unsupported` and such streams are not compared)",
 ]
 ASSUMPTIONS = [
-    "WF: version 1-2, type < 9, >= 1 channel, block size >= 1, every residual list as long as the current block size, "
-    "BLOCKSIZE only at a frame boundary with 1 <= n <= allocated size, QLPC order <= maxnlpc and only in blocks with "
-    "blocksize >= nwrap = max(3, maxnlpc) (the decoder leaves the offset-subtracted history behind; shorter blocks are "
-    "generated only with later block sizes non-increasing and counted as hypothesis-gap cases)",
-    "int32 range (monitor true) - a correspondence hypothesis, not needed by the Int-model theorems; "
-    "decode_encode_monitored carries it explicitly",
-    "encoder_exists is shown with DIFF0, nmean = 0, one block per channel frame (block size = number of frames); "
-    "mu-law existence (AU1/AU2, shift 0) via bijectivity of row 0 of ULAW_OUTWARD",
-    "rows 1-12 of ULAW_OUTWARD are only checked to be permutations (theorem) and against a pinned digest (harness)",
+    "WF (hypothesis of decode_encode / early_end / bad_cmd): version 1-2, type < 9, >= 1 channel, block size >= 1, "
+    "every residual list as long as the current block size, BLOCKSIZE only at a frame boundary with 1 <= n <= "
+    "allocated size, QLPC order <= maxnlpc and only in blocks with blocksize >= nwrap = max(3, maxnlpc).  The last "
+    "condition cannot be dropped (Props/C13.lean shortQlpcProgram: the decoder leaves the offset-subtracted history "
+    "behind, the implementation returns the same wrong sample).  Streams with QLPC in shorter blocks are generated "
+    "with later block sizes non-increasing and predictor orders <= block size (there the textbook semantics still "
+    "holds; counted as hypothesis-gap cases, oracle applied) and without that restriction (out of scope, model vs "
+    "implementation only)",
+    "int32 range (monitor true): a correspondence hypothesis, not needed by the Int-model theorems; gap cases counted",
+    "encoder_exists is shown with DIFF0, nmean = 0, one block per channel (block size = number of frames), any "
+    "residual width; mu-law existence (AU1/AU2, bit shift 0) through an explicit inverse of row 0 of ULAW_OUTWARD; "
+    "with a non-zero shift the mu-law rows are only proved to be permutations and checked against a pinned digest",
+    "early_end_file characterises truncation by `the complete 32-bit words of the body hold a strict prefix of the "
+    "encoded bits`; the byte-position arithmetic (which cuts satisfy it) is exercised by the generator, not proved",
 ]
 LEVEL_TEXT = (
-    "Full proof over unbounded Int, all residual values / widths / block sizes / channel counts / command sequences: "
-    "Rice code round trips (uvar, var with sign folding, ulong); the 32-bit big-endian word reader with 1024-byte buffer "
-    "refill refines the bit-list reader (including the error case); decode(encode p ++ rest) = sem p for every "
-    "well-formed program by induction over commands with the interpreter-state invariant (wrap history = window of the "
-    "full history, offset window, in-place QLPC offset trick, bit shift, mu-law fix-up, interleave), also at file level "
-    "through the word reader; every sample array has a well-formed program; truncation of an encoded stream, unknown "
-    "command, bad version and bad type give IOError.  Model tied to the code by translator (constants, tables) and exact "
-    "correspondence through read_signal on streams from an independent Python encoder."
+    "Full proof over unbounded Int for all residual values / widths / block sizes / channel counts / mean lengths / "
+    "bit shifts / LPC orders / command sequences: Rice-code round trips (uvar, var with sign folding, ulong); the "
+    "signed 32-bit big-endian word reader with 1024-byte buffer refill refines the bit-list reader, error case "
+    "included, and hence the decoder that exists equals the bit-list decoder on the file's words; decode(encode p ++ "
+    "rest) = sem p for every well-formed program by induction over commands with the interpreter-state invariant "
+    "(wrap buffer = window of the full history, offset window, in-place QLPC offset trick, bit shift, mu-law fix-up, "
+    "interleave), also for the bytes of encodeFile through the word reader; every PCM / mu-law sample array is the "
+    "meaning of a well-formed program; every strict prefix of an encoded stream, an unknown command, a bad version "
+    "byte, a bad type give IOError; loop fuels are never exhausted and irrelevant.  Tied to the code by translator "
+    "(constants, tables) and exact correspondence through read_signal on streams from an independent Python encoder "
+    "(which also ties the Lean encoder / sem to it byte for byte)."
 )
 LEVEL_NOTE = (
-    "Trusted: Lean kernel, std axioms, translator for constants/tables, semantics of struct/NumPy primitives named in "
-    "the model, int32-vs-Int monitor (gap cases counted), SPHERE header parse outside the model. QLPC restricted to "
-    "blocks >= nwrap."
+    "Trusted: Lean kernel, std axioms, translator for constants/tables, semantics of the struct / NumPy primitives "
+    "named in the model, int32-vs-Int monitor (gap cases counted), SPHERE header parse and result-dtype cast outside "
+    "the model. QLPC only in blocks >= nwrap (necessary: witness in Props). Two fix: commits on "
+    "fix/C13-shorten-masktab (mask table of Python ints; magic-only stream raises the IOError)."
 )
-TECHNIQUE = "Lean 4 proof (three-layer refinement) + translator for constants/tables + exact correspondence via an independent encoder"
+TECHNIQUE = "Lean 4 proof (three-layer refinement, core Lean only) + translator for constants/tables + exact correspondence via an independent encoder"
 
 # pinned digests of the tables as shipped by shorten / sph2pipe (see `table_digest`)
 PINNED = {}
@@ -192,7 +208,9 @@ def gen_signal(r, style, n, prev, lo, hi):
 
 def gen_stream(r, outward, profile="valid"):
     """Random stream from the independent encoder.  `outward` = ULAW_OUTWARD rows (ast-extracted; used only for
-    mu-law with a non-zero shift).  profile: valid | shrinking | qlpc_short | wide | othertype"""
+    mu-law with a non-zero shift).  profile: valid (QLPC only in blocks >= nwrap) | shrinking / qlpc_short (block
+    sizes never grow, predictor order <= block size, QLPC wherever order <= block size) | qlpc_anywhere (QLPC in
+    any block: out of scope) | wide (values / coefficients beyond int32: monitor false) | othertype (S8/U8/U16/ULAW)"""
     s = Stream()
     version = r.choice([1, 2, 2])
     if profile == "othertype":
@@ -296,11 +314,9 @@ def gen_stream(r, outward, profile="valid"):
                 cmd, order = "DIFF1" if bs >= 1 else "DIFF0", min(1, bs)
                 coefs = []
             if cmd == "QLPC" and bs < nwrap:
-                if coff != 0 or not shrinking:
-                    s.in_wf = False
+                s.in_wf = False  # outside the theorem's hypothesis
                 if profile == "qlpc_anywhere":
-                    s.in_scope = False
-                s.in_wf = False
+                    s.in_scope = False  # and, without the shrinking discipline, outside the property
                 s.classes.add("qlpc_in_short_block")
             prev = hist[c][-1] if hist[c] else 0
             if cmd == "ZERO":
@@ -835,9 +851,14 @@ def replay(rp):
         from pydrobert.speech import util
 
         sph = os.path.join(common.REPO, "tests", "audio", c["vector"])
+        want, _ = read_wav(sph.replace("_shn.sph", ".wav"))
         try:
-            arr = util.read_signal(sph)
-            print("impl: ok, %d samples" % arr.size)
+            with warnings.catch_warnings():
+                warnings.simplefilter("ignore")
+                arr = util.read_signal(sph)
+            got = np.asarray(arr).reshape(-1).tolist()
+            print("impl: ok, %d samples, %s" % (len(got), "equal to the reference WAV" if got == want else
+                                                "DIFFERENT from the reference WAV (first at %s)" % first_diff(got, want)))
         except Exception as e:  # noqa
             print("impl: raised %s: %s" % (type(e).__name__, e))
         print("oracle:", rp.get("oracle"))
